@@ -810,6 +810,7 @@ func (ue *UdpEndpoint) selfRemoveFromPool() {
 func (ue *UdpEndpoint) retire() {
 	ue.dead.Store(true)
 	ue.expiresAtNano.Store(1)
+	verifYield("uep1")
 	ue.selfRemoveFromPool()
 	_ = ue.Close()
 }
@@ -1585,6 +1586,7 @@ dialSuccess:
 	if ue.dialerGenerationRef != nil {
 		ue.dialerGeneration = ue.dialerGenerationRef.Load()
 	}
+	verifYield("uep2")
 
 	// Prewarm the initial Anyfrom socket used to reinject replies back to the
 	// client. Symmetric endpoints can pin a single fixed socket. Full-cone
